@@ -69,10 +69,18 @@ Proof. unfold set_device_information. destruct (negb _); [apply quiet_refl|apply
 Lemma qc_set_pgn_list r which l : quiet_change (rn r) (rn (set_pgn_list r which l)).
 Proof. unfold set_pgn_list, quiet_change. cbn [rn with_rn n_w64 n_mode n_now n_q n_drv n_open]. repeat split; auto. Qed.
 
+(* ExtendTransmitMessages / ExtendReceiveMessages / SetHandleOnlyKnownMessages / SetProductInformation *)
+Lemma qc_set_tx_list r i l : quiet_change (rn r) (rn (set_tx_list r i l)).
+Proof. unfold set_tx_list. destruct (negb _); [apply quiet_refl|]. cbv zeta. cbn [rn with_rn]. apply quiet_upd_dev_same; reflexivity. Qed.
+Lemma rn_set_rx_list r i l : rn (set_rx_list r i l) = rn r.
+Proof. unfold set_rx_list. destruct (negb _); reflexivity. Qed.
+Lemma rn_with_cfg r c : rn (with_cfg r c) = rn r.
+Proof. reflexivity. Qed.
+
 (* ================= 1. every call but SetMode is a run ================= *)
 Lemma api_step_nr r a r' ev : api_step r a = (r', ev) -> is_set_mode a = false -> NR (rn r) ev (rn r').
 Proof.
-  intros H Hsm. destruct a as [dst idev delay|idev|idev|dst idev tp|dst idev tp|force|idev|idev lo up si|idev uniq func cls manuf ind| |mode src|which l];
+  intros H Hsm. destruct a as [dst idev delay|idev|idev|dst idev tp|dst idev tp|force|idev|idev lo up si|idev uniq func cls manuf ind| |mode src|which l|idev l|idev l|b|serial code model sw ver load version cert];
     cbn [api_step] in H; try discriminate Hsm.
   - cbv zeta in H. destruct (valid_dev r (bcast_dev dst idev)) eqn:V; cbn [negb] in H; [|injection H as <- <-; apply NR_refl].
     destruct (0 <? delay); [injection H as <- <-; rewrite rn_set_pending; apply NR_refl|].
@@ -95,6 +103,10 @@ Proof.
   - injection H as <- <-. apply NR_quiet, rn_set_device_information.
   - eapply start_claim_all_nr; [exact H|lia].
   - injection H as <- <-. apply NR_quiet, qc_set_pgn_list.
+  - injection H as <- <-. apply NR_quiet, qc_set_tx_list.
+  - injection H as <- <-. rewrite rn_set_rx_list. apply NR_refl.
+  - injection H as <- <-. unfold set_only_known. rewrite rn_with_cfg. apply NR_refl.
+  - injection H as <- <-. rewrite rn_with_cfg. apply NR_refl.
 Qed.
 
 Theorem api_produced_frames_entitled : api_produced_frames_entitled_stmt.
@@ -163,6 +175,12 @@ Qed.
 Lemma keeps_set_device_information r i uniq func cls manuf ind : keeps r (set_device_information r i uniq func cls manuf ind).
 Proof. unfold set_device_information. destruct (negb _); [apply keeps_refl|apply keeps_set_name]. Qed.
 Lemma keeps_set_pgn_list r which l : keeps r (set_pgn_list r which l).  Proof. unfold set_pgn_list. kfin. Qed.
+Lemma keeps_set_tx_list r i l : keeps r (set_tx_list r i l).
+Proof. unfold set_tx_list. destruct (negb _); [apply keeps_refl|]. kfin. Qed.
+Lemma keeps_set_rx_list r i l : keeps r (set_rx_list r i l).
+Proof. unfold set_rx_list. destruct (negb _); [apply keeps_refl|apply keeps_with_devx]. Qed.
+Lemma keeps_with_cfg r c : keeps r (with_cfg r c).  Proof. unfold with_cfg. kfin. Qed.
+Lemma keeps_set_only_known r b : keeps r (set_only_known r b).  Proof. unfold set_only_known. apply keeps_with_cfg. Qed.
 Lemma keeps_set_mode_srcs : forall k r src i, keeps r (set_mode_srcs k r src i).
 Proof.
   induction k as [|k IH]; intros r src i; cbn [set_mode_srcs]; [apply keeps_refl|].
